@@ -11,6 +11,10 @@ import facts as F
 import flow as FL
 
 
+RET_POLY = ("core::str::parse", "std::iter::Iterator::sum", "std::iter::Iterator::product", "std::convert::TryInto::try_into",
+            "std::convert::TryFrom::try_from", "std::str::FromStr::from_str")
+
+
 class Undecidable(Exception):
     def __init__(self, node, msg):
         self.node = node
@@ -985,6 +989,9 @@ class Sym:
         name = short_path(path)
         if f.get("trait") and f.get("mentions") and f.get("targs") and not f["trait"].startswith(("std::", "core::", "alloc::")):
             name += "<%s>" % f["targs"][0]      # static trait call: keep the Self type (e.g. Pod::slice_from_prefix<Member>)
+        if name in RET_POLY and f.get("targs"):
+            # the result depends on a type argument that no value argument determines (`s.parse::<u32>()`)
+            name += "::<%s>" % f["targs"][-1]
         if not mut_idx:
             return [(st, (VAL, ("call", name, tuple(vals))))]
         s = st.copy()
